@@ -1,3 +1,4 @@
 import CohdlVerif.Model.DriverLoop
--- model driver of property C10 (stub: no model entry points yet)
-def main : IO Unit := CohdlVerif.driverLoop (fun _ => "bad-op")
+import CohdlVerif.Model.C10
+-- model driver of property C10: bind / cpybind / split / bool / pybool / not / chain / pychain / binop* / cmp*
+def main : IO Unit := CohdlVerif.driverLoop CohdlVerif.C10.handle
